@@ -57,6 +57,10 @@ def path_condition(fn: ast.AST, target: ast.AST, parents: Optional[Dict] = None)
                 conj.append(p.test)
             elif child is p.orelse:
                 conj.append(ast.UnaryOp(op=ast.Not(), operand=p.test))
+        if isinstance(p, ast.BoolOp) and child in p.values:
+            # short-circuit: a later operand is evaluated only if the earlier ones were true (and) / false (or)
+            for earlier in p.values[: p.values.index(child)]:
+                conj.append(earlier if isinstance(p.op, ast.And) else ast.UnaryOp(op=ast.Not(), operand=earlier))
         if isinstance(p, ast.ExceptHandler):
             conj.append(ast.Name(id=HANDLER, ctx=ast.Load()))
         if isinstance(p, (ast.comprehension,)):
